@@ -5,6 +5,8 @@
 #include <polynomials_arithmetic.h>
 #include "vh.h"
 #include <fstream>
+#include <thread>
+#include <vector>
 #include <sys/wait.h>
 
 static void il(const char* k, const std::vector<long>& v) { fprintf(vh_out, "\"%s\":[", k); for (size_t i = 0; i < v.size(); i++) fprintf(vh_out, "%s%ld", i ? "," : "", v[i]); fputc(']', vh_out); }
@@ -140,7 +142,14 @@ int main(int argc, char** argv) {
     vh_init();
     if (argc >= 2 && !strcmp(argv[1], "full")) return full((int)vh_arg(argc, argv, "--n", 8), (int)vh_arg(argc, argv, "--k", 1), (int)vh_arg(argc, argv, "--l", 3), (int)vh_arg(argc, argv, "--bg", 7), (int)vh_arg(argc, argv, "--t", 8), (int)vh_arg(argc, argv, "--bb", 2), (unsigned)vh_arg(argc, argv, "--seed", 1), (int)vh_arg(argc, argv, "--cases", 6144));
     if (argc >= 3 && !strcmp(argv[1], "replay")) {       // several instances one after the other in one process (state kept between calls of different shapes shows here)
-        int rc = 0; for (int i = 2; i < argc && argv[i][0] != '-'; i++) { g_inst = argv[i]; rc |= replay(argv[i], (unsigned)vh_arg(argc, argv, "--seed", 1), vh_sarg(argc, argv, "--only", "")); }
-        return rc; }
+        int rc = 0, T = (int)vh_arg(argc, argv, "--threads", 1); unsigned seed = (unsigned)vh_arg(argc, argv, "--seed", 1); const char* only = vh_sarg(argc, argv, "--only", "");
+        for (int i = 2; i < argc && argv[i][0] != '-'; i++) { g_inst = argv[i];
+            if (T <= 1) { rc |= replay(argv[i], seed, only); continue; }
+            // the same instance replayed by T threads at once, each on its own objects and into its own buffer (rows are printed thread after thread)
+            std::vector<char*> bufs(T, (char*)0); std::vector<size_t> lens(T, 0); std::vector<int> rcs(T, 0); std::vector<std::thread> th;
+            for (int t = 0; t < T; t++) th.emplace_back([&, t]() { FILE* m = open_memstream(&bufs[t], &lens[t]); vh_out = m; rcs[t] = replay(argv[i], seed, only); fflush(m); fclose(m); vh_out = stdout; });
+            for (auto& x : th) x.join();
+            for (int t = 0; t < T; t++) { rc |= rcs[t]; if (bufs[t]) { fwrite(bufs[t], 1, lens[t], stdout); free(bufs[t]); } } }
+        fflush(stdout); return rc; }
     fprintf(stderr, "usage: h_boot replay <instance.txt>\n"); return 2;
 }
